@@ -193,7 +193,7 @@ func (dec *tomlDecoder) decodeNode(tomlNode *toml.Node) (*CandidateNode, error) 
 
 }
 
-func (dec *tomlDecoder) Decode() (*CandidateNode, error) {
+func (dec *tomlDecoder) Decode() (decoded *CandidateNode, decodeError error) {
 	if dec.finished {
 		return nil, io.EOF
 	}
@@ -207,6 +207,8 @@ func (dec *tomlDecoder) Decode() (*CandidateNode, error) {
 			if !ok {
 				deferredError = fmt.Errorf("pkg: %v", r)
 			}
+			// hand the recovered error to the caller: without named results a recovered panic returned (nil, nil)
+			decoded, decodeError = nil, deferredError
 		}
 	}()
 
